@@ -371,6 +371,7 @@ def find_function_def(clean, qualname, select=None):
         fd.qualname = qualname
         fd.head_start = b + 1
         fd.ret_text = re.sub(r'template\s*<[^>]*>', '', head).strip()
+        fd.template_T = bool(re.search(r'template\s*<[^>]*\b(?:typename|class)\s+T\b', head))
         fd.params_text = params_text
         fd.is_const = is_const
         fd.init_list = init
@@ -455,6 +456,7 @@ def parse_class(header_clean, cls, real='double'):
     body, _ = class_body(header_clean, cls)
     for it in class_items(body):
         t = it.strip()
+        item_template_T = bool(re.match(r'^template\s*<[^>]*\b(?:typename|class)\s+T\b', t))
         t = re.sub(r'^template\s*<[^>]*>\s*', '', t)
         if t.startswith('friend') or t.startswith('using '):
             continue
@@ -513,6 +515,7 @@ def parse_class(header_clean, cls, real='double'):
             if bi >= 0:
                 mi.inline_body = suffix[bi:suffix.rfind('}') + 1]
             mi.deleted = '= delete' in suffix or '=delete' in suffix
+            mi.template_T = item_template_T
             try:
                 mi.params = parse_params(mi.params_text, real)
             except ExtractError:
@@ -609,9 +612,10 @@ class Translator:
        is_method  -- the function has a `this`
     """
 
-    def __init__(self, cls, real, functable, classinfo, report=None):
+    def __init__(self, cls, real, functable, classinfo, report=None, template_T=True):
         self.cls, self.real, self.functable, self.classinfo = cls, real, functable, classinfo
         self.report = report or Report()
+        self.template_T = template_T   # the identifier T is the template type parameter (else it is an ordinary name)
 
     # ---- R7 throws
     def rule_throw(self, body, ret_ctype):
@@ -853,7 +857,7 @@ class Translator:
         extra = []
         if self.cls and self.cls in self.classinfo:
             extra = list(self.classinfo[self.cls].enum_names)
-        names = '|'.join(CAST_TYPES + extra)
+        names = '|'.join([t for t in CAST_TYPES if t != 'T' or self.template_T] + extra)
         out = []
         i = 0
         pat = re.compile(r'(?<![\w.>])(unsigned\s+long\s+long|long\s+long|' + names + r')\s*\(')
@@ -903,7 +907,9 @@ class Translator:
 
     def rule_real(self, body):
         body, n = re.subn(r'\breal\b', self.real, body)
-        body, n2 = re.subn(r'\bT\b', self.real, body)
+        n2 = 0
+        if self.template_T:
+            body, n2 = re.subn(r'\bT\b', self.real, body)
         self.report.hit('R4.real', n + n2)
         body, n3 = re.subn(r'\bbool\b', '_Bool', body)
         return body
